@@ -772,6 +772,8 @@ def asgi_case(kind, n, d, fails, aw, mode=0, encfail=None):
         st["started"] = 1
         try:
             for i in range(n):
+                if mode in (6, 7) and i == d:
+                    box["disconnect"].set()     # the client goes away while the response idles between two events
                 for _ in range(aw):
                     await asyncio.sleep(0)
                 st["produced"] += 1
@@ -790,11 +792,43 @@ def asgi_case(kind, n, d, fails, aw, mode=0, encfail=None):
             if fails:
                 raise exc
         finally:
-            st["finally"] += 1
-            snap()
+            if mode in (5, 7):
+                # a producer whose cleanup itself waits (unsubscribes, closes a connection): it counts once complete
+                et = sys.exc_info()[0]
+                st["why"] = "close" if et is GeneratorExit else "cancel" if et is asyncio.CancelledError else "end"
+                for _ in range(aw + 1):
+                    await asyncio.sleep(0)
+            if mode != 4:
+                st["finally"] += 1
+                snap()
+
+    class ObjProducer:
+        """mode 4: the producer is an iterator OBJECT (a subscription, a receive stream) whose cleanup is its
+        aclose() - idempotent, as such objects are - rather than an async generator's finally block"""
+
+        def __init__(self):
+            self.inner = producer()
+            self.closed = False
+
+        def __aiter__(self):
+            return self
+
+        async def __anext__(self):
+            if self.closed:
+                raise StopAsyncIteration
+            return await self.inner.__anext__()
+
+        async def aclose(self):
+            if not self.closed:
+                self.closed = True
+                st["finally"] += 1
+                snap()
+                await self.inner.aclose()
+
+    box = {}
 
     async def main():
-        disconnect = asyncio.Event()
+        disconnect = box["disconnect"] = asyncio.Event()
 
         # what the server still holds of the request when the application never read its body: in every other
         # scenario the (empty, or two-piece) request body comes out of receive() before the disconnect does
@@ -825,7 +859,7 @@ def asgi_case(kind, n, d, fails, aw, mode=0, encfail=None):
                     else:
                         state["other"] += 1
                     state["bodies"] += 1
-                    if state["bodies"] == d:
+                    if state["bodies"] == d and mode not in (6, 7):
                         disconnect.set()
                 else:
                     state["final"] += 1
@@ -833,9 +867,9 @@ def asgi_case(kind, n, d, fails, aw, mode=0, encfail=None):
             for _ in range(aw):
                 await asyncio.sleep(0)
 
-        if d == 0:
+        if d == 0 and mode not in (6, 7):
             disconnect.set()
-        gen = producer()
+        gen = ObjProducer() if mode == 4 else producer()
         if kind == "sse":
             resp = ar.SendEventResponse(gen, ping_interval=0.02 if mode == 1 else 60,
                                         charset="latin-1" if encfail is not None else "utf-8")
@@ -883,7 +917,7 @@ def asgi_case(kind, n, d, fails, aw, mode=0, encfail=None):
         if outcome == "hang":
             call.cancel()
         try:
-            agen_closed = gen.ag_frame is None or not st["started"]
+            agen_closed = gen.closed if mode == 4 else (gen.ag_frame is None or not st["started"])
         except Exception:  # noqa
             agen_closed = True
         # snapshot NOW: what the loop's shutdown (or the garbage collector) cleans up later does not count
@@ -919,6 +953,8 @@ def asgi_case(kind, n, d, fails, aw, mode=0, encfail=None):
     if other:
         out += " other=%d" % other
     out += " y=%d" % st["produced"]
+    if mode in (5, 7) and fin_runs == 0 and "why" in st:
+        out += " cut=%s" % st["why"]      # the cleanup began (for that reason) and was interrupted in its own await
     return out, outcome == "hang", trace, raised
 
 
@@ -1200,6 +1236,10 @@ def oracle_outcome(line, out, asgi=False):
     if items != list(range(len(items))):
         return "delivered %s is not in order / has loss or duplication" % items
     if asgi:
+        if int(d["started"]) and int(d["closed"]) != 1 and "cut" in d:
+            return ("the producer's cleanup (which awaits) began %s and was cut short by a cancellation: it never ran to "
+                    "its end" % {"close": "when the response closed the producer", "cancel": "on the response's cancel()",
+                                 "end": "when the producer ended by itself"}[d["cut"]])
         if int(d["started"]) and int(d["closed"]) != 1:
             return "the generator was started but its cleanup did not run exactly once (%s)" % d["closed"]
         if len(items) > int(d["y"]):
@@ -1215,6 +1255,10 @@ def oracle_outcome(line, out, asgi=False):
         if aw_ >= 1 and dd < n and int(d["y"]) > dd + 3:
             return ("the client was gone after %d body messages, yet the producer was stepped %d times (of %d): the "
                     "disconnect was not acted upon" % (dd, int(d["y"]), n))
+        if len(a) > 5 and a[5] in ("6", "7"):
+            # the disconnect arrives while the producer works on item dd: what was yielded before may still be in
+            # the relay's hand / queue, so only order and the stepping bound above are demanded
+            return None
         if dd > n and len(items) != n:
             return "no disconnect, but only %d of %d chunks were delivered" % (len(items), n)
         if dd <= n and len(items) < min(dd, n):
@@ -1435,6 +1479,17 @@ def extra(rng, tier):
                 lines.append("asgi_encfail %d %d %d" % (n, j, aw))
     for mode in (0, 1, 2):
         lines.append("wsgi_iterfail %d" % mode)
+    # the producer is an iterator object with aclose() (not an async generator): it is released all the same
+    for kind in ("asgi_stream", "asgi_sse"):
+        for n in range(0, top):
+            for d in range(0, n + 2):
+                for fails in (0, 1):
+                    for aw in (0, 1, 2):
+                        lines.append("%s %d %d %d %d 4" % (kind, n, d, fails, aw))
+                        lines.append("%s %d %d %d %d 5" % (kind, n, d, fails, aw))
+                        if d < n and aw:
+                            lines.append("%s %d %d %d %d 6" % (kind, n, d, fails, aw))
+                            lines.append("%s %d %d %d %d 7" % (kind, n, d, fails, aw))
     # ASGI event stream of field-less heartbeat events, the client gone from the start
     for n in (6, 9):
         for aw in (1, 2, 3):
@@ -1503,6 +1558,8 @@ ASSUMPTIONS = [
     "a producer that was never started has no cleanup to run (relay cancelled before its first step)",
 ]
 PARTIAL = ("The ASGI models treat "
-           "the relay's `await g.aclose()` as non-suspending (a producer whose cleanup awaits is not modelled).  "
+           "the relay's `await g.aclose()` as non-suspending and identify 'the generator has finished' with 'its "
+           "cleanup ran': producers whose cleanup awaits, and iterator objects whose cleanup is their aclose(), are "
+           "judged on the real code by the oracle only (scenario modes 4-7), not by a theorem.  "
            "Forced-schedule replay is at queue/future-call granularity; interleavings of the should_stop flag finer "
            "than that are covered by the proofs only.")
